@@ -710,6 +710,11 @@ def compare(impl, model):
     for k in y:
       if k == 'ident':
         if x[k] is not None and y[k] is not None and x[k] != y[k]:
+          # the model tracks the identity of handles / call results, not of elements read out of a tuple (getitem): when
+          # the code's class points at an earlier observation whose identity the model did not track, and the model calls
+          # this result the first of its class, the two say the same thing
+          if x[k] < i and b[x[k]].get('ident') is None and y[k] == i:
+            continue
           return f'op {i}: identity class {x[k]} (code) vs {y[k]} (model)'
       elif x.get(k) != y[k]:
         return f'op {i}: {k}: {jdump(x.get(k))[:200]} (code) vs {jdump(y[k])[:200]} (model)'
